@@ -92,6 +92,23 @@ class Acc:
         return self.total
 
     @api.expose
+    def addneg(self, x):
+        self.log.append(["addneg", x])
+        self.total -= x
+        return self.total
+
+    @api.expose
+    def flip(self):
+        """re-binds an exposed method ON THE INSTANCE: until the next flip(), add() is addneg() (an object that switches
+        behaviour: what a name resolves to can change between two calls of one batch)"""
+        self.log.append(["flip"])
+        if "add" in self.__dict__:
+            del self.__dict__["add"]
+        else:
+            self.add = self.addneg
+        return "add" in self.__dict__
+
+    @api.expose
     def push(self, v):
         self.log.append(["push", v])
         self.items.append(v)
@@ -233,8 +250,10 @@ def _val(rng, huge, depth=0):
 
 
 def _call(rng, huge, slow=False):
-    k = rng.choices(["add", "push", "put", "get", "div", "check", "hidden", "_secret", "nosuch", "addstr", "work", "fail", "ident", "arr"],
-                    [4, 3, 3, 1, 2, 2, 0.35, 0.35, 0.25, 0.2, 10 if slow else 0.3, 2.2, 0.8, 0.6])[0]
+    k = rng.choices(["add", "push", "put", "get", "div", "check", "hidden", "_secret", "nosuch", "addstr", "work", "fail", "ident", "arr", "flip"],
+                    [4, 3, 3, 1, 2, 2, 0.35, 0.35, 0.25, 0.2, 10 if slow else 0.3, 2.2, 0.8, 0.6, 0.9])[0]
+    if k == "flip":
+        return {"m": "flip", "a": [], "k": {}}
     if k == "ident":
         return {"m": "ident", "a": [], "k": {}}
     if k == "arr":
